@@ -385,6 +385,35 @@ func oracleC08(p *Pair, env *Env, a [][]byte) *Failure {
 	return nil
 }
 
+// addLeakScenario rewrites two assembly files so that state computed for an earlier file (in walk order) would
+// matter to a later one if anything leaked: a stored expression recalled without being stored, a definition used
+// without being defined, a flag, an unclosed block. A file that fails on its own is the LAST one of the walk, because
+// a fatal error ends an --all run.
+func addLeakScenario(r *rand.Rand, ct *crsTree, kind int) {
+	if len(ct.ra) < 2 {
+		return
+	}
+	ras := append([]raFile{}, ct.ra...)
+	sort.Slice(ras, func(i, j int) bool { return ras[i].path < ras[j].path })
+	last := ras[len(ras)-1]
+	early := ras[r.Intn(len(ras)-1)]
+	switch kind {
+	case 0: // stash
+		ct.t[early.path] = append(ct.t[early.path], []byte("a+b\n##!=< leak\n##!=> leak\nfoo\n")...)
+		ct.t[last.path] = []byte("##!=> leak\nqux\n")
+	case 1: // definition
+		ct.t[early.path] = append([]byte("##!> define leakdef [0-9]+\n"), ct.t[early.path]...)
+		later := ras[len(ras)-1-r.Intn(len(ras)-1)]
+		if later.path != early.path {
+			ct.t[later.path] = append(ct.t[later.path], []byte("x{{leakdef}}y\n")...)
+		}
+	case 2: // flags, prefix, suffix
+		ct.t[early.path] = append([]byte("##!+ is\n##!^ pre\n##!$ suf\n"), ct.t[early.path]...)
+	case 3: // the last file leaves a block open (fails alone and in --all)
+		ct.t[last.path] = append(ct.t[last.path], []byte("##!> assemble\nopen\n")...)
+	}
+}
+
 func genC08(r *rand.Rand, tier string, env *Env) []Case {
 	n, orders := 10, 2
 	if tier == "thorough" {
@@ -392,8 +421,14 @@ func genC08(r *rand.Rand, tier string, env *Env) []Case {
 	}
 	var cases []Case
 	for i := 0; i < n; i++ {
-		ct := genCRSTree(r, 1+r.Intn(5))
-		// make some stored operands already up to date is not needed: update decides by bytes
+		nRa := 1 + r.Intn(5)
+		if i%2 == 1 && nRa < 2 {
+			nRa = 2 + r.Intn(3)
+		}
+		ct := genCRSTree(r, nRa)
+		if i%2 == 1 {
+			addLeakScenario(r, ct, (i/2)%4)
+		}
 		for _, cmd := range []string{"update", "format", "compare"} {
 			var args []string
 			for _, ra := range ct.ra {
@@ -519,19 +554,33 @@ func genC18(r *rand.Rand, tier string, env *Env) []Case {
 		cases = append(cases, Case{Kind: "argument", Ops: []Op{{"ruleid.parse", [][]byte{[]byte(arg)}}}})
 	}
 	// resolution through the binary
-	m := 12
+	m := 18
 	if tier == "thorough" {
 		m = 120
 	}
-	for i := 0; i < m; i++ {
+	c18Tree := func(extra ...string) Tree {
 		t := Tree{"regex-assembly/942100.ra": []byte("plain\n"), "regex-assembly/942100-chain1.ra": []byte("chainone\n"), "regex-assembly/942100-chain255.ra": []byte("last\n"),
 			"regex-assembly/942100-chain256.ra": []byte("toolarge\n"), "regex-assembly/94210.ra": []byte("short\n"), "regex-assembly/9421000.ra": []byte("long\n"),
-			"regex-assembly/942100-chain01.ra": []byte("leadingzero\n"), "rules/REQUEST-942-X.conf": []byte("SecRule ARGS \"@rx a\" \\\n    \"id:942100,\\\n    chain\"\n    SecRule ARGS \"@rx b\" \\\n    \"t:none\"\n")}
-		type ex struct{ arg, file string }
-		e := pick(r, []ex{{"942100", "regex-assembly/942100.ra"}, {"942100.ra", "regex-assembly/942100.ra"}, {"942100-chain1", "regex-assembly/942100-chain1.ra"},
-			{"942100-chain1.ra", "regex-assembly/942100-chain1.ra"}, {"942100-chain255", "regex-assembly/942100-chain255.ra"}, {"942100-chain01", "regex-assembly/942100-chain01.ra"},
-			{"942100-chain256", ""}, {"942100-chain256.ra", ""}, {"94210", ""}, {"9421000", ""}, {"942100-chain", ""}, {"942100.raa", ""}, {"942100-chain300", ""}, {"942100-chain99999999999999999999", ""}})
-		cases = append(cases, Case{Kind: "resolve-argument", Oracles: []Op{{"c18.arg", [][]byte{encodeTree(t), []byte(e.arg), []byte(e.file)}}}})
+			"regex-assembly/942100-chain01.ra": []byte("leadingzero\n"), "regex-assembly/942100-chain007.ra": []byte("bond\n"), "regex-assembly/942100-chain7.ra": []byte("seven\n"),
+			"regex-assembly/942100-chain0.ra": []byte("zero\n"), "regex-assembly/942100-chain19.ra": []byte("nineteen\n"),
+			"rules/REQUEST-942-X.conf": []byte("SecRule ARGS \"@rx a\" \\\n    \"id:942100,\\\n    chain\"\n    SecRule ARGS \"@rx b\" \\\n    \"t:none\"\n")}
+		for _, e := range extra {
+			t[e] = []byte("extra" + e + "\n")
+		}
+		return t
+	}
+	type ex struct{ arg, file string }
+	exs := []ex{{"942100", "regex-assembly/942100.ra"}, {"942100.ra", "regex-assembly/942100.ra"}, {"942100-chain1", "regex-assembly/942100-chain1.ra"},
+		{"942100-chain1.ra", "regex-assembly/942100-chain1.ra"}, {"942100-chain255", "regex-assembly/942100-chain255.ra"}, {"942100-chain01", "regex-assembly/942100-chain01.ra"},
+		{"942100-chain007.ra", "regex-assembly/942100-chain007.ra"}, {"942100-chain7", "regex-assembly/942100-chain7.ra"}, {"942100-chain0", "regex-assembly/942100-chain0.ra"},
+		{"942100-chain19.ra", "regex-assembly/942100-chain19.ra"},
+		{"942100-chain256", ""}, {"942100-chain256.ra", ""}, {"94210", ""}, {"9421000", ""}, {"942100-chain", ""}, {"942100.raa", ""}, {"942100-chain300", ""}, {"942100-chain99999999999999999999", ""}}
+	for i := 0; i < m; i++ {
+		e := exs[i%len(exs)]
+		if i >= len(exs) {
+			e = pick(r, exs)
+		}
+		cases = append(cases, Case{Kind: "resolve-argument", Oracles: []Op{{"c18.arg", [][]byte{encodeTree(c18Tree()), []byte(e.arg), []byte(e.file)}}}})
 	}
 	// roots: nested roots, start directories at depth 0..4 below or beside a root
 	layout := Tree{
